@@ -4,6 +4,9 @@
 //! (the layer is built through `BulkheadLayer::small()/medium()/large()`, customised afterwards by whatever else the
 //! header gives), `ctor=new|default` (`BulkheadConfigBuilder::new()/default()` instead of `BulkheadLayer::builder()`),
 //! `name=<s>` (`.name(s)`), `unit=us` (`wait=` is in microseconds: waits with a sub-millisecond part).
+//! `max=0` is `max_concurrent_calls(0)` (nobody is ever admitted; the wait rule is the ordinary one). `wait=<ms>` takes any u64: waits
+//! and `adv`s of decades are fine (world.rs rewinds the cumulative clock between cases and advances in stretches); `wait=max`
+//! (`Duration::MAX`) is armed by tokio as now + 30 years, so it is never combined with such advances.
 //! `manual onpoll c=<p> by=<c2> <arrive words>` (world.rs, through `requester()`): a request made by the wrapped service
 //! itself, from inside the poll of the admitted call p, through a clone of the same bulkhead.
 //!
